@@ -12,7 +12,8 @@ import mp_common as M
 TRUSTED_BASE_MPLOAD = [
     "coq/MpLoadModel.v: shapes of load targets, load_spec (what the generic layer makes of the scopes' answers), the request programs elem_prog / member_prog; hand-written from serialization_base_types.h / generic_container.h; tied to /repo by this correspondence (drv_mpload: LoadObject through the public API)",
     "std::map<K,V> targets (K = std::string or an integer type, MapLoadMode::Clean) are modelled for archive keys of K's class (string / integer) that convert to pairwise different K; documents whose maps meet a std::map target with a key of another class (text <-> number conversions, float / double / timestamp keys) or with equal keys are answered UNMODELLED by the model driver and only required not to crash (counted in the evidence as class 'unmodelled')",
-    "not modelled: MapLoadMode::OnlyExistKeys / UpdateKeys, validation; documents with keys of unsupported kinds or duplicate keys are outside the specification (the object scope throws on an unsupported key kind)",
+    "the target's prior content (op ldp) is given in the tree syntax the driver prints and built into the dynamic target before LoadObject; MapLoadMode reaches SerializeMapImpl(ar, map, mode) the way user code passes it",
+    "not modelled: validation; documents with keys of unsupported kinds or duplicate keys are outside the specification (the object scope throws on an unsupported key kind)",
     "glue: harness/drv_mpload.cpp (dynamic node tree; an element reset to value_type() is printed as the value-initialised element of the static element type), ml/mpload_driver.ml, props/C01mp.py (independent Python evaluation of the load)",
 ]
 
@@ -33,7 +34,7 @@ def drivers(vlib):
     return impl, saver, model
 
 
-# ---------------------------------------------------------------- shapes: ('n',) ('B',) ('i',kind) ('f',) ('d',) ('s',) ('b',) ('[',e) ('{',[(name,shape)]) ('<',kshape,vshape) ('(',n,e) ('v',) ('^',[shape..])
+# ---------------------------------------------------------------- shapes: ('n',) ('B',) ('i',kind) ('f',) ('d',) ('s',) ('b',) ('[',e) ('{',[(name,shape)]) ('<',kshape,vshape,mode) ('(',n,e) ('v',) ('^',[shape..]);  mode in 'cou' = MapLoadMode Clean / OnlyExistKeys / UpdateKeys
 
 def rand_shape(rng, depth=0):
     k = rng.random()
@@ -63,7 +64,7 @@ def rand_shape(rng, depth=0):
         return ("^", [rand_shape(rng, depth + 1) for _ in range(rng.choice([0, 1, 2, 2, 3, 4]))])
     if k < 0.88:
         ks = ("s",) if rng.random() < 0.5 else ("i", rng.choice(list(IKINDS)))
-        return ("<", ks, rand_shape(rng, depth + 1))
+        return ("<", ks, rand_shape(rng, depth + 1), rng.choice("cccou"))
     n = rng.choice([0, 1, 2, 3, 4, 6]) if depth < 2 else rng.randrange(0, 3)
     names = []
     while len(names) < n:
@@ -92,7 +93,7 @@ def shape_text(s):
     if t == "[":
         return "[" + shape_text(s[1]) + "]"
     if t == "<":
-        return "<" + shape_text(s[1]) + "=" + shape_text(s[2]) + ">"
+        return "<" + ("" if s[3] == "c" else s[3] + "|") + shape_text(s[1]) + "=" + shape_text(s[2]) + ">"
     if t == "(":
         return "(%d|%s)" % (s[1], shape_text(s[2]))
     if t == "v":
@@ -202,105 +203,155 @@ class Unjudged(Exception):
     pass
 
 
-def default_text(s):
+NOT = object()      # Serialize(...) returned false: the target keeps what it holds
+
+# target values: None | bool | int | ("f", bits) | ("d", bits) | bytes (string) | ("b", bytes) | list | ("o", [(name, value)]) | dict (map)
+
+
+def default_val(s):
     t = s[0]
-    if t in "nBifdsb":
-        return shape_text(s)
-    if t == "[":
-        return "[]"
+    if t == "n":
+        return None
+    if t == "B":
+        return False
+    if t == "i":
+        return 0
+    if t == "f":
+        return ("f", 0)
+    if t == "d":
+        return ("d", 0)
+    if t == "s":
+        return b""
+    if t == "b":
+        return ("b", b"")
+    if t in "[v":
+        return []
     if t == "<":
-        return "{}"
+        return {}
     if t == "(":
-        return "[" + ";".join(default_text(s[2]) for _ in range(s[1])) + "]"
-    if t == "v":
-        return "[]"
+        return [default_val(s[2]) for _ in range(s[1])]
     if t == "^":
-        return "[" + ";".join(default_text(x) for x in s[1]) + "]"
-    return "{" + ";".join("s%s=%s" % (M.hx(nm), default_text(x)) for nm, x in s[1]) + "}"
+        return [default_val(x) for x in s[1]]
+    return ("o", [(nm, default_val(x)) for nm, x in s[1]])
 
 
-def py_load(pol, s, v):
-    """text of the loaded value, or None when the target is not loaded (keeps its value); raises Stop(cat)"""
+def show(s, x):
+    """the tree text the drivers print for a target of shape s holding x"""
+    t = s[0]
+    if t == "n":
+        return "n"
+    if t == "B":
+        return "T" if x else "F"
+    if t == "i":
+        return "i%s:%s" % (s[1], shex(x))
+    if t == "f":
+        return fmt_f32(x[1])
+    if t == "d":
+        return fmt_f64(x[1])
+    if t == "s":
+        return "s" + M.hx(x)
+    if t == "b":
+        return "b" + M.hx(x[1])
+    if t == "[":
+        return "[" + ";".join(show(s[1], y) for y in x) + "]"
+    if t == "(":
+        return "[" + ";".join(show(s[2], y) for y in x) + "]"
+    if t == "v":
+        return "[" + ";".join("T" if y else "F" for y in x) + "]"
+    if t == "^":
+        return "[" + ";".join(show(y, z) for y, z in zip(s[1], x)) + "]"
+    if t == "<":
+        return "{" + ";".join("%s=%s" % (key_text(s[1], k), show(s[2], x[k])) for k in sorted(x)) + "}"
+    return "{" + ";".join("s%s=%s" % (M.hx(nm), show(sh, y)) for (nm, sh), (_, y) in zip(s[1], x[1])) + "}"
+
+
+def py_load(pol, s, init, v):
+    """what a target of shape s holding init holds after the load of the document value v, or NOT when the target is
+    not loaded (it keeps init); raises Stop(cat)"""
     def mism():
         if pol[0] == "T":
             raise Stop("M")
-        return None
+        return NOT
 
     def ovf():
         if pol[1] == "T":
             raise Stop("O")
-        return None
+        return NOT
     t = s[0]
     if t in "[{b<(v^" and v is None:
-        return None
+        return NOT
+    if t == "[":
+        # SerializeContainer: resized to the count, each element loaded into what is there (or a fresh one), RESET if not loaded
+        if not isinstance(v, list):
+            return mism()
+        out = []
+        for i, x in enumerate(v):
+            i0 = init[i] if i < len(init) else default_val(s[1])
+            r = py_load(pol, s[1], i0, x)
+            out.append(default_val(s[1]) if r is NOT else r)
+        return out
+    if t == "(":
+        # SerializeFixedSizeArray: elements while both sides have one (kept if not loaded), then OutOfRange unless both are exhausted
+        if not isinstance(v, list):
+            return mism()
+        out = list(init) + [default_val(s[2])] * max(0, s[1] - len(init))
+        for i, x in enumerate(v[:s[1]]):
+            r = py_load(pol, s[2], out[i], x)
+            if r is not NOT:
+                out[i] = r
+        if len(v) != s[1]:
+            raise Stop("R")
+        return out
     if t == "^":
         # SerializeArray(std::tuple): components while the array has elements; a shorter array leaves the rest as they are
         if not isinstance(v, list):
             return mism()
-        out = []
+        out = list(init) + [default_val(x) for x in s[1][len(init):]]
         for i, x in enumerate(s[1]):
             if i >= len(v):
                 if pol[0] == "T":
                     raise Stop("M")
-                out += [default_text(y) for y in s[1][i:]]
                 break
-            r = py_load(pol, x, v[i])
-            out.append(default_text(x) if r is None else r)
+            r = py_load(pol, x, out[i], v[i])
+            if r is not NOT:
+                out[i] = r
         if len(v) > len(s[1]) and pol[0] == "T":
             raise Stop("M")
-        return "[" + ";".join(out) + "]"
-    if t == "(":
-        # SerializeFixedSizeArray: elements while both sides have one, then OutOfRange unless both are exhausted
-        if not isinstance(v, list):
-            return mism()
-        out = []
-        for x in v[:s[1]]:
-            r = py_load(pol, s[2], x)
-            out.append(default_text(s[2]) if r is None else r)
-        if len(v) != s[1]:
-            raise Stop("R")
-        return "[" + ";".join(out) + "]"
+        return out
     if t == "v":
         # std::vector<bool>: one local bool is loaded and assigned, loaded or not
         if not isinstance(v, list):
             return mism()
-        out, cur = [], "F"
+        out, cur = [], False
         for x in v:
-            r = py_load(pol, ("B",), x)
-            if r is not None:
+            r = py_load(pol, ("B",), False, x)
+            if r is not NOT:
                 cur = r
             out.append(cur)
-        return "[" + ";".join(out) + "]"
-    if t == "[":
-        if not isinstance(v, list):
-            return mism()
-        out = []
-        for x in v:
-            r = py_load(pol, s[1], x)
-            out.append(default_text(s[1]) if r is None else r)
-        return "[" + ";".join(out) + "]"
+        return out
     if t == "b":
         if isinstance(v, tuple) and v[0] == "bin":
-            return "b" + M.hx(v[1])
+            return ("b", v[1])
         if not isinstance(v, list):
             return mism()
         out = bytearray()
         for x in v:
-            r = py_load(pol, ("i", "u8"), x)
-            out.append(0 if r is None else int(r.split(":")[1], 16))
-        return "b" + M.hx(bytes(out))
+            r = py_load(pol, ("i", "u8"), 0, x)
+            out.append(0 if r is NOT else r)
+        return ("b", bytes(out))
     if t == "<":
-        # SerializeMapImpl, Clean: per member in document order convert the key, insert, load the mapped value
+        # SerializeMapImpl: Clean clears; per member in document order convert the key, then
+        #   Clean / UpdateKeys: the element under the key (a fresh one if there is none) is loaded; OnlyExistKeys: only if it is there
         if not (isinstance(v, tuple) and v[0] == "map"):
             return mism()
-        out = {}
+        cur = {} if s[3] == "c" else dict(init)
+        seen = set()
         for k, x in v[1]:
             if isinstance(k, bool) or k is None or isinstance(k, list) or (isinstance(k, tuple) and k[0] in ("bin", "map")):
                 raise Unjudged("key of an unsupported kind")
             if s[1][0] == "s":
                 if not isinstance(k, bytes):
                     raise Unjudged("key of another class than the map's key type")
-                key = k
             else:
                 if not isinstance(k, int):
                     raise Unjudged("key of another class than the map's key type")
@@ -309,12 +360,15 @@ def py_load(pol, s, v):
                     if pol[1] == "T":
                         raise Stop("O")
                     continue
-                key = k
-            if key in out or sum(1 for k2, _ in v[1] if k2 == k and type(k2) is type(k)) > 1:
+            if k in seen or sum(1 for k2, _ in v[1] if k2 == k and type(k2) is type(k)) > 1:
                 raise Unjudged("duplicate keys")
-            r = py_load(pol, s[2], x)
-            out[key] = default_text(s[2]) if r is None else r
-        return "{" + ";".join("%s=%s" % (key_text(s[1], k), out[k]) for k in sorted(out)) + "}"
+            seen.add(k)
+            if s[3] == "o" and k not in cur:
+                continue
+            i0 = cur[k] if k in cur else default_val(s[2])
+            r = py_load(pol, s[2], i0, x)
+            cur[k] = i0 if r is NOT else r
+        return cur
     if t == "{":
         if not (isinstance(v, tuple) and v[0] == "map"):
             return mism()
@@ -322,16 +376,16 @@ def py_load(pol, s, v):
             if isinstance(k, bool) or k is None or isinstance(k, list) or (isinstance(k, tuple) and k[0] in ("bin", "map")):
                 raise Unjudged("key of an unsupported kind")
         out = []
-        for nm, x in s[1]:
+        for (nm, x), (_, i0) in zip(s[1], init[1]):
             found = [val for k, val in v[1] if isinstance(k, bytes) and k == nm]
             if len(found) > 1:
                 raise Unjudged("duplicate keys")
-            r = py_load(pol, x, found[0]) if found else None
-            out.append("s%s=%s" % (M.hx(nm), default_text(x) if r is None else r))
-        return "{" + ";".join(out) + "}"
+            r = py_load(pol, x, i0, found[0]) if found else NOT
+            out.append((nm, i0 if r is NOT else r))
+        return ("o", out)
     # one typed read
     if v is None:
-        return "n" if t == "n" else None
+        return None if t == "n" else NOT
     if t == "n":
         return mism()
     if t in "Bi":
@@ -340,45 +394,95 @@ def py_load(pol, s, v):
             lo, hi = (0, 2) if t == "B" else IKINDS[s[1]]
             if not (lo <= z < hi):
                 return ovf()
-            return ("T" if z else "F") if t == "B" else "i%s:%s" % (s[1], shex(z))
+            return bool(z) if t == "B" else z
         return mism()
     if isinstance(v, bool) or isinstance(v, int):
         return mism()
     if t == "s":
-        return "s" + M.hx(v) if isinstance(v, bytes) else mism()
+        return v if isinstance(v, bytes) else mism()
     if t == "f":
         if isinstance(v, tuple) and v[0] == "f32":
-            return fmt_f32(v[1])
+            return ("f", v[1])
         if isinstance(v, tuple) and v[0] == "f64":
             d = f64_of(v[1])
             if -FLT_MAX <= d <= FLT_MAX:
-                return fmt_f32(struct.unpack(">I", struct.pack(">f", d))[0])
+                return ("f", struct.unpack(">I", struct.pack(">f", d))[0])
             return ovf()
         return mism()
     if t == "d":
         if isinstance(v, tuple) and v[0] == "f64":
-            return fmt_f64(v[1])
+            return ("d", v[1])
         if isinstance(v, tuple) and v[0] == "f32":
             f = f32_of(v[1])
-            return "dnan" if math.isnan(f) else "d%x" % struct.unpack(">Q", struct.pack(">d", f))[0]
+            return ("d", 0x7ff8000000000000) if math.isnan(f) else ("d", struct.unpack(">Q", struct.pack(">d", f))[0])
         return mism()
     raise ValueError(s)
 
 
-def expected(pol, s, data):
+def expected(pol, s, data, init=None):
     try:
         v, i = M.dec_value(data)
     except M.Bad:
         return None
     if i != len(data):
         return None
+    if init is None:
+        init = default_val(s)
     try:
-        r = py_load(pol, s, v)
+        r = py_load(pol, s, init, v)
     except Stop as e:
         return "ERR " + e.cat
     except Unjudged:
         return None
-    return "OK " + (default_text(s) if r is None else r)
+    return "OK " + show(s, init if r is NOT else r)
+
+
+def clean_maps(s):
+    t = s[0]
+    if t == "<":
+        return s[3] == "c" and clean_maps(s[2])
+    if t == "[":
+        return clean_maps(s[1])
+    if t == "(":
+        return clean_maps(s[2])
+    if t == "^":
+        return all(clean_maps(x) for x in s[1])
+    if t == "{":
+        return all(clean_maps(x) for _, x in s[1])
+    return True
+
+
+def rand_prior(rng, s):
+    """a content for a target of shape s: what loading a random document of that shape into a fresh target gives
+    (so maps hold other keys, containers other sizes than the document that is loaded afterwards)"""
+    _, _, val = rand_value(rng, s)
+    try:
+        r = py_load("SS", s, default_val(s), val)
+    except (Stop, Unjudged):
+        return default_val(s)
+    if r is NOT:
+        return default_val(s)
+    return scrub(s, r)
+
+
+def scrub(s, x):
+    """NaN floats print as fnan / dnan, which cannot be read back as a prior: replace them"""
+    t = s[0]
+    if t == "f":
+        return ("f", 0x3fc00000) if math.isnan(f32_of(x[1])) else x
+    if t == "d":
+        return ("d", 0x3ff8000000000000) if math.isnan(f64_of(x[1])) else x
+    if t == "[":
+        return [scrub(s[1], y) for y in x]
+    if t == "(":
+        return [scrub(s[2], y) for y in x]
+    if t == "^":
+        return [scrub(y, z) for y, z in zip(s[1], x)]
+    if t == "<":
+        return dict((k, scrub(s[2], y)) for k, y in x.items())
+    if t == "{":
+        return ("o", [(nm, scrub(sh, y)) for (nm, sh), (_, y) in zip(s[1], x[1])])
+    return x
 
 
 # ---------------------------------------------------------------- documents that differ from the saved value
@@ -471,35 +575,43 @@ def run_mpload(ctx, vlib):
     trees = gen_cases(rng, ctx["tier"])
     saved = vlib.run_driver(saver, ["sv %s %s" % (rng.choice("ms"), text) for _, text, _, _ in trees])
     cases, meta = [], []
-    for (s, _, text, val), sv in zip(trees, saved):
+
+    def add(cls, text, s, kind, pol, hexdoc):
+        """half of the loads go into a fresh target, half into a target that already holds something"""
         st = shape_text(s)
+        if rng.random() < 0.5:
+            cases.append("ld %s %s %s %s" % (kind, pol, st, hexdoc))
+            meta.append((cls, text, s, None))
+        else:
+            init = rand_prior(rng, s)
+            cases.append("ldp %s %s %s %s %s" % (kind, pol, st, show(s, init), hexdoc))
+            meta.append((cls + " populated", text, s, init))
+    for (s, _, text, val), sv in zip(trees, saved):
         pol = rng.choice(["TT", "TT", "SS", "ST", "TS"])
         if not sv.startswith("ERR") and sv != "UNSUPPORTED":
-            # the implementation's own output, loaded back: must reproduce the tree
+            # the implementation's own output, loaded back: must reproduce the tree (whatever the target holds, maps in Clean)
             for kind in "ms":
-                cases.append("ld %s %s %s %s" % (kind, pol, st, sv))
-                meta.append(("saved", text))
+                add("saved", text, s, kind, pol, sv)
         # the independent encoder with random format widths
-        cases.append("ld %s %s %s %s" % (rng.choice("ms"), pol, st, M.hx(M.enc_value(val, rng))))
-        meta.append(("encoded", text))
+        add("encoded", text, s, rng.choice("ms"), pol, M.hx(M.enc_value(val, rng)))
         # members permuted / dropped / added, values of other kinds
         for _ in range(2):
             pol2 = rng.choice(["SS", "SS", "TT", "ST", "TS"])
-            cases.append("ld %s %s %s %s" % (rng.choice("ms"), pol2, st, M.hx(M.enc_value(perturb(rng, s, val), rng))))
-            meta.append(("perturbed", None))
+            add("perturbed", None, s, rng.choice("ms"), pol2, M.hx(M.enc_value(perturb(rng, s, val), rng)))
     oi = vlib.run_driver(impl, cases)
     om = vlib.run_driver(model, cases)
     failing, diffs = [], []
     classes, verdicts = {}, {}
     seen, nontrivial = set(), 0
-    shapes = dict((shape_text(s), s) for s, _, _, _ in trees)
-    for line, (cls, text), a, b in zip(cases, meta, oi, om):
+    for line, (cls, text, s, init), a, b in zip(cases, meta, oi, om):
         t = line.split(" ")
         key = "%s %s %s" % (cls, t[1], t[2])
         classes[key] = classes.get(key, 0) + 1
+        if "<o|" in t[3] or "<u|" in t[3]:
+            classes["map load modes"] = classes.get("map load modes", 0) + 1
         if line not in seen:
             seen.add(line)
-            if len(t[4]) > 4:
+            if len(t[-1]) > 4:
                 nontrivial += 1
         if b == "UNMODELLED":
             # outside `modelled` (key of another class than the map's key type, equal keys): only no crash is required
@@ -508,8 +620,9 @@ def run_mpload(ctx, vlib):
                 failing.append(dict(driver="mpload", case=line, implementation=a, model=b, judge="FAIL", why="crash on a document outside the modelled domain"))
             verdicts["UNKNOWN"] = verdicts.get("UNKNOWN", 0) + 1
             continue
-        exp = expected(t[2], shapes[t[3]], bytes.fromhex(t[4]) if t[4] != "-" else b"")
-        rt_ok = text is None or a == "OK " + text
+        exp = expected(t[2], s, bytes.fromhex(t[-1]) if t[-1] != "-" else b"", init)
+        # save then load reproduces the value whatever the target holds, when every map is loaded with Clean (T_C01_mp_load_save_into)
+        rt_ok = text is None or not clean_maps(s) or a == "OK " + text
         if exp is None:
             verdict, why = "UNKNOWN", "outside the judged domain"
         elif a == exp and rt_ok:
@@ -537,7 +650,7 @@ def run_mpload(ctx, vlib):
     samples = [dict(case=cases[i][:400], implementation=oi[i][:200], model=om[i][:200]) for i in range(0, len(cases), step)][:3]
     return dict(evaluations=len(cases), distinct_nontrivial=nontrivial, samples=samples, classes=classes, failing=failing, diffs=diffs,
                 known_lines=known_lines, extra=dict(mpload_verdicts=verdicts),
-                rule="typed load of whole value trees through LoadObject<MsgPackArchive> (string and istream): random shapes (all integer kinds, bool, nullptr, float, double, string, byte container, nested vectors, classes with up to 6 string-named members, std::map<std::string, V> and std::map<integer type, V> for all eight integer types, std::array<V, N> with N in 0..5, std::vector<bool>, std::tuple of 0..4 components, depth <= 4); documents = the implementation's own SaveObject output of a random value of the shape, the independent Python encoder's output with random format widths, and perturbed documents (members permuted / dropped / added, map entries permuted and added with keys in and out of the key type's range and occasionally of another class, values of other kinds, extra elements) under the four policy combinations; compared with the extracted specification load_bytes and with an independent Python evaluation; saved documents must load back to the saved tree",
+                rule="typed load of whole value trees through LoadObject<MsgPackArchive> (string and istream): random shapes (all integer kinds, bool, nullptr, float, double, string, byte container, nested vectors, classes with up to 6 string-named members, std::map<std::string, V> and std::map<integer type, V> for all eight integer types, std::array<V, N> with N in 0..5, std::vector<bool>, std::tuple of 0..4 components, depth <= 4); documents = the implementation's own SaveObject output of a random value of the shape, the independent Python encoder's output with random format widths, and perturbed documents (members permuted / dropped / added, map entries permuted and added with keys in and out of the key type's range and occasionally of another class, values of other kinds, extra elements) under the four policy combinations; std::map targets in the three MapLoadModes; half of the loads into a fresh target, half into a target that already holds the result of loading another random document of the shape; compared with the extracted specification load_bytes_into and with an independent Python evaluation; saved documents must load back to the saved tree whatever the target holds (maps in Clean)",
                 broken="correspondence MsgPack typed load specification vs LoadObject<MsgPackArchive> (drv_mpload)")
 
 
